@@ -378,11 +378,11 @@ func (b *baseExecutor) buildLockKey(records *types.RecordImage, meta types.Table
 			lockKeys.WriteString(",")
 		}
 		pkSplitIndex := 0
-		for _, column := range row.Columns {
-			var hasKeyColumn bool
-			for _, key := range keys {
+		// the key parts in primary-key order: the same row gives the same key text whatever the order
+		// of the columns in the image (statement column list, table order)
+		for _, key := range keys {
+			for _, column := range row.Columns {
 				if column.ColumnName == key {
-					hasKeyColumn = true
 					if pkSplitIndex > 0 {
 						lockKeys.WriteString("_")
 					}
@@ -390,9 +390,9 @@ func (b *baseExecutor) buildLockKey(records *types.RecordImage, meta types.Table
 					pkSplitIndex++
 				}
 			}
-			if hasKeyColumn {
-				filedSequence++
-			}
+		}
+		if pkSplitIndex > 0 {
+			filedSequence++
 		}
 	}
 
